@@ -308,23 +308,23 @@ def run(ctx):
 
     # ---- domain files
     recs = [{"id": i + 1, "ast": a, "big": big} for i, (a, big) in enumerate(dom)]
-    ex_chunks = chunk(recs, ctx.pick(4, 24))
+    ex_chunks = chunk(recs, ctx.pick(3, 24))
     ex_dom = []
     for i, c in enumerate(ex_chunks):
         pth = os.path.join(ddir, "pat_%02d.json" % i)
         write_json(pth, {"paths": pcodes, "patterns": c, "strings": []})
         ex_dom.append(pth)
     strs = strings_domain(ctx.pick(5, 6))
-    st_chunks = chunk(strs, ctx.pick(2, 10))
+    st_chunks = chunk(strs, ctx.pick(1, 10))
     st_dom = []
     for i, c in enumerate(st_chunks):
         pth = os.path.join(ddir, "str_%02d.json" % i)
         write_json(pth, {"paths": [], "patterns": [], "strings": [codes(x) for x in c]})
         st_dom.append(pth)
     # law domain: a small exhaustive core + a seeded sample of every family
-    lawpats = [a for a in family_plain(2)]
+    lawpats = [a for a in family_plain(ctx.pick(1, 2))]
     for fam in (family_one_group, family_three_alts, family_nested, family_two_groups):
-        lawpats += rnd.sample(list(fam()), ctx.pick(30, 150))
+        lawpats += rnd.sample(list(fam()), ctx.pick(14, 150))
     lawpats += family_big()[:2]
     lawrecs = [{"id": i + 1, "ast": a, "big": i >= len(lawpats) - 2} for i, a in enumerate(lawpats)]
     lawdom = os.path.join(ddir, "laws.json")
@@ -362,7 +362,7 @@ def run(ctx):
                     nexp += 1
                     distinct.setdefault(tuple(v), None)
     variants = sorted(distinct, key=lambda v: (len(v), v))
-    gl_chunks = chunk(variants, ctx.pick(4, 24))
+    gl_chunks = chunk(variants, ctx.pick(3, 24))
     gl_dom, gl_tabs = [], []
     for i, c in enumerate(gl_chunks):
         pth = os.path.join(ddir, "glob_%02d.json" % i)
@@ -408,7 +408,7 @@ def run(ctx):
     sets = [r for r in prows if r.get("kind") == "set"]
     precsets = os.path.join(obsdir, "prec_sets.ndjson")
     common.write_ndjson(precsets, sets)
-    rchunks, nobs = rt.split_ndjson(randobs, ctx.pick(3, 12), obsdir, prefix="rand")
+    rchunks, nobs = rt.split_ndjson(randobs, ctx.pick(2, 12), obsdir, prefix="rand")
     pchunks, nsets = rt.split_ndjson(precsets, ctx.pick(1, 4), obsdir, prefix="prec")
     robs = {o["case"]: o for o in rrows}
     sobs = {o["case"]: o for o in sets}
@@ -444,13 +444,20 @@ def run(ctx):
     g0["rows"][gi] = g0["rows"][gi][1:]
     g0bad = os.path.join(tabdir, "glob_00_corrupt.json")
     write_json(g0bad, g0)
-    with open(ex_tabs[0]) as f:
-        e0 = json.load(f)
-    ei = next(i for i, row in enumerate(e0["rows"]) if row["n"] >= 2 and row["ex"])
+    ec = ei = None
+    for ci, t in enumerate(ex_tabs):
+        with open(t) as f:
+            e0 = json.load(f)
+        ei = next((i for i, row in enumerate(e0["rows"]) if row["n"] >= 2 and row["ex"]), None)
+        if ei is not None:
+            ec = ci
+            break
+    if ec is None:
+        raise InfraError("vacuity guard: no pattern of the domain has two expansions")
     e0["rows"][ei]["n"] -= 1
     e0["rows"][ei]["ex"] = e0["rows"][ei]["ex"][:-1]
-    canary_p = render(ex_chunks[0][ei]["ast"])
-    e0bad = os.path.join(tabdir, "expand_00_corrupt.json")
+    canary_p = render(ex_chunks[ec][ei]["ast"])
+    e0bad = os.path.join(tabdir, "expand_corrupt.json")
     write_json(e0bad, e0)
 
     def table_drv(tag, doms, exps, gtabs, maxm):
@@ -459,7 +466,7 @@ def run(ctx):
                                      "VERIF_GLOBDOM": ",".join(gl_dom), "VERIF_GLOB": ",".join(gtabs),
                                      "VERIF_MAX_MISMATCH": maxm}, timeout=2400)
     jobs = [table_drv("all", ex_dom, ex_tabs, gl_tabs, 100000),
-            table_drv("canary", ex_dom[:1], [e0bad], [g0bad] + gl_tabs[1:], 100000),
+            table_drv("canary", [ex_dom[ec]], [e0bad], [g0bad] + gl_tabs[1:], 100000),
             val("match", cm, "corrupt_match"), val("prec", cp, "corrupt_prec")]
     jobs += [val("match", pth, "rand_%02d" % i) for i, pth in enumerate(rchunks)]
     jobs += [val("prec", pth, "prec_%02d" % i) for i, pth in enumerate(pchunks)]
